@@ -70,6 +70,47 @@ Theorem C04_module_layers : forall genv ms provs self k,
 Proof. exact build_env_layers. Qed.
 Print Assumptions C04_module_layers.
 
+(* WHICH modules those are (proofs/ImportsClosure.v, ImportsBuild.v). For a build of a loaded project — the resolver's
+   selection rst for (builder, app) — and any selected module self, the list whose exports are merged is: every
+   selected module reachable from self through active imports (uses / depends; a name stands for the selected module
+   of that name and for every selected provider; a conditional entry counts when its condition module is selected),
+   nothing else, each once, self last — cycles among imports included. *)
+Require Import Laze.model.Load Laze.proofs.ImportsClosure Laze.proofs.ImportsBuild.
+Theorem C04_imports_are_the_reachable_modules :
+  forall t pf bd b, load t pf bd = Ok b ->
+  forall builder bname binary cli_selects disabled0 rst, In binary (all_modules b) ->
+  resolve_build b builder bname binary cli_selects disabled0 = Ok rst ->
+  forall self y, In self (sel rst) ->
+  (In y (imports_postorder (sel rst) (provby rst) self) <-> reach (sel rst) (provby rst) self y).
+Proof. exact build_imports_are_reachable. Qed.
+Print Assumptions C04_imports_are_the_reachable_modules.
+
+Theorem C04_imports_once :
+  forall b builder bname binary cli_selects disabled0 rst,
+  resolve_build b builder bname binary cli_selects disabled0 = Ok rst ->
+  forall self, In self (sel rst) ->
+  NoDup (map m_name (imports_postorder (sel rst) (provby rst) self)).
+Proof. exact build_imports_once. Qed.
+Print Assumptions C04_imports_once.
+
+Theorem C04_own_exports_last : forall ms provs self, exists deps, imports_postorder ms provs self = deps ++ [self].
+Proof. exact imports_postorder_self_last. Qed.
+Print Assumptions C04_own_exports_last.
+
+(* two modules that import each other see each other's exports (the closure is complete on cycles) *)
+Definition ex_importer (name : str) (imports : list dep) : module :=
+  {| m_name := name; m_context_name := S_ "default"; m_selects := []; m_imports := imports; m_provides := None; m_conflicts := None;
+     m_notify_all := false; m_blocklist := None; m_allowlist := None; m_sources := []; m_sources_optional := None; m_tasks := [];
+     m_build := None; m_env_local := []; m_env_export := []; m_env_global := []; m_env_early := []; m_relpath := None; m_srcdir := None;
+     m_build_dep_files := None; m_is_build_dep := false; m_is_global_build_dep := false; m_is_binary := false;
+     m_context_id := None; m_defined_in := None; m_download := None |}.
+Example C04_ex_import_cycle :
+  let a := ex_importer (S_ "a") [Hard (S_ "b")] in
+  let b := ex_importer (S_ "b") [Hard (S_ "a")] in
+  map m_name (imports_postorder [a; b] [] a) = [S_ "b"; S_ "a"] /\
+  map m_name (imports_postorder [a; b] [] b) = [S_ "a"; S_ "b"].
+Proof. vm_compute. split; reflexivity. Qed.
+
 (* -D: K+=v is a one-element list, K=v a single value; "+=" is tried first *)
 Theorem C04_define_append : forall e a var value,
   split_once (S_ "+=") a [] = Some (var, value) ->
